@@ -1070,3 +1070,33 @@ pub fn remove_obsolete_scenario(
     }
     (manifest_number, remaining)
 }
+
+/// Serialized form of a batch of puts starting at sequence number `start` (as it is written to the write-ahead log).
+pub fn encode_put_batch(start: u64, puts: &[(Vec<u8>, Vec<u8>)]) -> Vec<u8> {
+    let mut b = crate::Batch::new();
+    for (k, v) in puts {
+        b.add_put(k.clone(), v.clone());
+    }
+    b.set_starting_seq_number(start);
+    Vec::from(&b)
+}
+
+/// Path of write-ahead log `n` of the database described by `options`.
+pub fn wal_path(options: &DbOptions, n: u64) -> std::path::PathBuf {
+    crate::file_names::FileNameHandler::new(options.db_path().to_string()).get_wal_file_path(n)
+}
+
+/// Numbers of the write-ahead logs currently in the database directory.
+pub fn wal_numbers(options: &DbOptions) -> Vec<u64> {
+    let fnh = crate::file_names::FileNameHandler::new(options.db_path().to_string());
+    let mut out = vec![];
+    if let Ok(files) = options.filesystem_provider().list_dir(&fnh.get_wal_dir()) {
+        for f in files {
+            if let Ok(crate::file_names::ParsedFileType::WriteAheadLog(n)) = crate::file_names::FileNameHandler::get_file_type_from_name(&f) {
+                out.push(n);
+            }
+        }
+    }
+    out.sort();
+    out
+}
